@@ -264,7 +264,7 @@ func (suite *KeeperTestSuite) TestVerifReplayFeemarket() {
 				c := vrCase{NoBaseFee: rng.Intn(8) == 0, Den: uint32(1 + rng.Intn(50)), Elast: uint32(1 + rng.Intn(5)), EnableHeight: int64(rng.Intn(3)),
 					Height: int64(rng.Intn(5)), BaseFee: new(big.Int).Rand(rng, new(big.Int).Lsh(big.NewInt(1), uint(1+rng.Intn(80)))).String(),
 					MinGasPrice: new(big.Int).Rand(rng, new(big.Int).Lsh(big.NewInt(1), uint(1+rng.Intn(100)))).String(),
-					HasCons: rng.Intn(10) != 0, HasBlock: rng.Intn(10) != 0, MaxGas: rng.Int63n(1<<uint(1+rng.Intn(62))) - 1, Gas: rng.Uint64() >> uint(rng.Intn(64))}
+					HasCons:     rng.Intn(10) != 0, HasBlock: rng.Intn(10) != 0, MaxGas: rng.Int63n(1<<uint(1+rng.Intn(62))) - 1, Gas: rng.Uint64() >> uint(rng.Intn(64))}
 				if try(c) {
 					break
 				}
